@@ -2169,6 +2169,8 @@ impl SpeechRules {
             self.rule_files.ft.clear();          // nothing is loaded until the read succeeds (a failed read is retried)
             let files_read = self.read_patterns(&rule_file)?;
             self.rule_files.set_files_and_times(files_read);
+            #[cfg(mathcat_verif)]
+            verif::log_loaded(self.rule_files.paths());
         }
 
         let pref_manager = self.pref_manager.borrow();
@@ -2183,6 +2185,8 @@ impl SpeechRules {
             self.unicode_short_files.borrow_mut().ft.clear();
             let files_read = self.read_unicode(None, true)?;
             self.unicode_short_files.borrow_mut().set_files_and_times(files_read);
+            #[cfg(mathcat_verif)]
+            verif::log_loaded(self.unicode_short_files.borrow().paths());
         }
 
         #[cfg(mathcat_verif)]
@@ -2196,6 +2200,8 @@ impl SpeechRules {
             self.definitions_files.borrow_mut().ft.clear();
             let files_read = read_definitions_file(self.name != RulesFor::Braille)?;
             self.definitions_files.borrow_mut().set_files_and_times(files_read);
+            #[cfg(mathcat_verif)]
+            verif::log_loaded(self.definitions_files.borrow().paths());
         }
         return Ok( () );
     }
@@ -2603,6 +2609,8 @@ impl<'c, 's:'c, 'r, 'm:'c> SpeechRulesWithContext<'c, 's,'m> {
                     rules.unicode_full_files.borrow_mut().ft.clear();
                     let files_read = rules.read_unicode(None, false)?;
                     rules.unicode_full_files.borrow_mut().set_files_and_times(files_read);
+                    #[cfg(mathcat_verif)]
+                    verif::log_loaded(rules.unicode_full_files.borrow().paths());
                     info!("# Unicode defs = {}/{}", rules.unicode_short.borrow().len(), rules.unicode_full.borrow().len());
                 }
                 unicode = rules.unicode_full.borrow();
@@ -2827,6 +2835,7 @@ pub mod verif {
 
     thread_local!{
         static LOAD_LOG: std::cell::RefCell<Vec<(String, String, bool)>> = const { std::cell::RefCell::new(vec![]) };
+        static LOADED_FILES: std::cell::RefCell<Vec<(usize, Vec<String>)>> = const { std::cell::RefCell::new(vec![]) };
     }
 
     /// records one cache check: which cache, the key the preferences ask for (a file path, the separator pair), whether it is (re)loaded
@@ -2848,7 +2857,22 @@ pub mod verif {
         });
     }
 
+    /// marks the last recorded check as one whose load succeeded, with the files now on record for it
+    pub fn log_loaded(files: Vec<std::path::PathBuf>) {
+        let n = LOAD_LOG.with(|log| log.borrow().len());
+        LOADED_FILES.with(|l| l.borrow_mut().push((n, files.iter().map(|f| f.to_string_lossy().to_string()).collect())));
+    }
+
     pub fn take_load_log() -> Vec<(String, String, bool)> {
+        LOADED_FILES.with(|l| l.borrow_mut().clear());
         return LOAD_LOG.with(|log| log.replace(vec![]));
+    }
+
+    /// the checks with, for each successful load, the files recorded (None: no load, or the load failed)
+    pub fn take_load_log_full() -> Vec<(String, String, bool, Option<Vec<String>>)> {
+        let files = LOADED_FILES.with(|l| l.replace(vec![]));
+        let log = LOAD_LOG.with(|log| log.replace(vec![]));
+        return log.into_iter().enumerate().map(|(i, (kind, key, reload))|
+            (kind, key, reload, files.iter().find(|(n, _)| *n == i + 1).map(|(_, f)| f.clone()))).collect();
     }
 }
